@@ -192,7 +192,7 @@ GUIDE = {"quick": dict(NG=300, SG=300, NL=4000, SL=4),
 # C05
 # ===========================================================================
 C05_BOUNDS = {"quick": dict(S=10, T=100, T_ms=64, T_rev=24, R=4, all_splits=16),
-              "thorough": dict(S=14, T=200, T_ms=128, T_rev=48, R=6,
+              "thorough": dict(S=16, T=200, T_ms=128, T_rev=48, R=6,
                                all_splits=24)}
 
 
@@ -354,7 +354,8 @@ def check_c05(prop, tier):
 # ===========================================================================
 # C06
 # ===========================================================================
-C06_BOUNDS = {"quick": dict(S=8, T=128), "thorough": dict(S=11, T=256)}
+C06_BOUNDS = {"quick": dict(S=8, T=128, NG=720, SG=30),
+              "thorough": dict(S=12, T=256, NG=1500, SG=40)}
 
 
 def check_c06(prop, tier):
@@ -449,6 +450,39 @@ def check_c06(prop, tier):
                 res.violation({"cls": "Mixed", "code": "storage_dependent"},
                               f"{cfg!r}: {got[cfg.key()]} steps on RAM, "
                               f"{got[other.key()]} on DISK", rp)
+    # ---- guided deep confirmations: the planner's cost for large n and
+    #      moderately many units against the validated recurrence; anomalies
+    #      count only after the real Mixed stream was driven
+    NG, SG = B.get("NG", 320), B.get("SG", 32)
+    res.bounds["planner_scan"] = {"NG": NG, "SG": SG}
+    fplan = getattr(mx, "mixed_step_memoization", None)
+    anomalies = []
+    if fplan is not None:
+        for n in range(2, NG + 1):
+            for s in range(1, min(SG, n - 1) + 1):
+                res.add(evaluations=1)
+                try:
+                    c = int(fplan(n, s)[2])
+                except Exception:  # noqa: BLE001
+                    continue
+                if c != refs.mixed_total_steps(n, s):
+                    anomalies.append((n, s, c))
+        res.counters["planner_scan_anomalies"] = len(anomalies)
+        for n, s, c in sorted(anomalies)[:4]:
+            for st in ("RAM", "DISK"):
+                cfg = D.Config("Mixed", (s, st), n)
+                fwd, cnt, err = stream_cost(cfg)
+                want = refs.mixed_total_steps(n, s)
+                res.add(evaluations=1, traces_validated_against_impl=1)
+                if fwd is None or fwd != want:
+                    rp = common.write_replay(prop, "Mixed_deep", {
+                        "property": prop, "kind": "c06_stream",
+                        "config": cfg.as_json(), "want": int(want),
+                        "got": fwd, "err": err})
+                    res.violation({"cls": "Mixed",
+                                   "code": "steps_exceed_optimum"},
+                                  f"{cfg!r}: {fwd} forward steps, optimum is "
+                                  f"{want} (found via the planner scan)", rp)
     res.cov["distinct_nontrivial"] = nontriv
     res.cov["rule"] = ("tier A: full state graph of M (mixed variant: a unit "
                        "holds restart data or one step's dependencies) for "
@@ -471,7 +505,7 @@ def check_c06(prop, tier):
 # C07
 # ===========================================================================
 C07_BOUNDS = {"quick": dict(S=7, T=20, RAM=3, DISK=3),
-              "thorough": dict(S=10, T=40, RAM=3, DISK=3)}
+              "thorough": dict(S=11, T=40, RAM=3, DISK=3)}
 
 
 def check_c07(prop, tier):
